@@ -1321,6 +1321,20 @@ func (r *Run) Addr16() []byte {
 	return a
 }
 
+// AddrAny: an address as a caller may hand it to a builder: mostly 16 octets, sometimes the 4-octet form of an IPv4
+// address, nil, or a slice of another length (which encodes as the unspecified address)
+func (r *Run) AddrAny() []byte {
+	switch r.Rng.Intn(10) {
+	case 0, 1:
+		return r.Bytes(4)
+	case 2:
+		return nil
+	case 3:
+		return r.Bytes(r.Pick(1, 5, 15, 17))
+	}
+	return r.Addr16()
+}
+
 // toggleCase flips the case of the first ASCII letter of s (octet-wise: names are not text)
 func toggleCase(s string) (string, bool) {
 	b := []byte(s)
